@@ -231,6 +231,19 @@ func init() {
 			}
 			return false
 		}),
+		// node.handleSnapshotTask: a Stream task is either refused WITH a failure report to raft or becomes the stream job
+		c08Bool("src_stream_task_outcome", func() bool {
+			got := strings.Join(c08IfConds(root(), "node", "handleSnapshotTask"), " ; ")
+			return got == "n.ss.recovering() ; task.Recover ; task.Save ; n.ss.saving() ; task.Stream ; !n.canStream()"
+		}),
+		// the chunk receiver fsyncs a file with its last chunk, for streamed snapshots (IsLastChunk) and files alike
+		has("src_chunk_sync_cond", func() *Pkg { return loadPkg("internal/transport") }, "Chunk", "save", "chunk.IsLastChunk() || chunk.IsLastFileChunk()"),
+		// handleBatch decodes every entry into its own buffer (GetPayload -> getDecodedPayload(cmd, nil))
+		c08Bool("src_batch_payload_own_buffer", func() bool {
+			p := rsm()
+			return c08CallOrder(p, "StateMachine", "handleBatch", "GetPayload", "s.sm.BatchedUpdate") &&
+				strings.Contains(c08Print(p, p.Func("", "GetPayload").Body), "return getDecodedPayload(e.Cmd, nil)")
+		}),
 		// concurrentSave: prepare(), then Sync() unconditionally, then doSave
 		c08Bool("src_concurrent_save_syncs", func() bool {
 			return c08TopLevelIfInit(rsm(), "StateMachine", "concurrentSave", "err := s.sync()") &&
